@@ -18,10 +18,11 @@ _PURE_Q = [dict(tla="FeedsPrice_MC.tla", cfg="FeedsPrice_MC_pure2.cfg", tier="qu
 _PURE_T = [dict(tla="FeedsPrice_MC.tla", cfg="FeedsPrice_MC_pure3.cfg", tier="thorough", timeout=1500),
            dict(tla="FeedsPrice_MC.tla", cfg="FeedsPrice_MC_pure4r.cfg", tier="thorough", timeout=1500)]
 _FULL = [dict(tla="FeedsPrice_MC.tla", cfg="FeedsPrice_MC_full.cfg", tier="thorough", timeout=1500)]
+_PRICE2 = [dict(tla="FeedsPrice_MC.tla", cfg="FeedsPrice_MC_price2.cfg", tier="thorough", timeout=1500)]
 
 PROPS = {
     "C06": dict(
-        mc=_PURE_Q + [dict(tla="FeedsPrice_MC.tla", cfg="FeedsPrice_MC_price.cfg", tier="quick", timeout=300)] + _PURE_T + _FULL,
+        mc=_PURE_Q + [dict(tla="FeedsPrice_MC.tla", cfg="FeedsPrice_MC_price.cfg", tier="quick", timeout=300)] + _PURE_T + _PRICE2 + _FULL,
         gen=dict(tla="FeedsPrice_Gen.tla", cfg="FeedsPrice_Gen.cfg", depth=60, num=dict(quick=300, thorough=2000), timeout=900),
         drive=dict(family="feedsprice", nrand=dict(quick=400, thorough=4000)),
         trace=dict(tla="FeedsPrice_Trace.tla", cfg="FeedsPrice_Trace_C06.cfg"),
